@@ -14,6 +14,7 @@ def handleBits : List String → Option String
   | ["p2b", p] => some ((parsePaulis p).elim "ERR pauli" fun ps => showVec (pauliToBsf ps))
   | ["b2p", v] => some (showPaulis (bsfToPauli (parseVec v)))
   | ["wt", v] => some (toString (bsfWt (parseVec v)))
+  | ["wtstack", m] => some (toString (bsfWtStack (parseStack m)))
   | ["b2i", v] => some (toString (bvectorToInt (parseVec v)))
   | ["i2b", k, n] => some (showVec (intToBvector k.toNat! n.toNat!))
   | ["brank", m] => some (toString (brank (parseStack m)))
